@@ -195,6 +195,9 @@ class SpecLib:
 # ---------------------------------------------------------------------------
 # law lemmas
 
+LAW_REGISTRY = {}      # name -> (pass-A text, pass-B text) of every rendered Law (emit includes the ones a hint calls)
+
+
 class Law:
     """ensures statements over symbolic values; generates a flat pass-B lemma and a pass-A lemma calling it."""
 
@@ -282,6 +285,7 @@ class Law:
         pa += '    ensures ' + ',\n        '.join(c[0] for c in self.concl) + ',\n{\n'
         pa += '    poly::%s(%s);\n' % (pname, ', '.join(c for _, c in atoms))
         pa += '}\n'
+        LAW_REGISTRY[self.name] = (pa, pb)
         return pa, pb
 
 
